@@ -17,6 +17,7 @@ FamCfgs(f) == CASE f = "graph3"   -> GraphFamily(Three)
                 [] f = "flat2"    -> FlatFamily(2)
                 [] f = "flat3"    -> FlatFamily(3)
                 [] f = "raise"    -> RaiseFamily(Three)
+                [] f = "modname"  -> ModNameFamily
                 [] f = "sample"   -> { CfgList[i] : i \in 1..Len(CfgList) }
 ASSUME \A f \in Families : (AssumeAll \/ f = "sample") => \A c \in FamCfgs(f) : CfgOK(c)
 Init == \E f \in Families : InitWith(f, FamCfgs(f))
